@@ -136,12 +136,18 @@ impl Scenario for C05 {
         if rng.chance(1, if tier == Tier::Quick { 3_500 } else { 40_000 }) {
             return gen_giant_fill_spec(rng);
         }
+        if rng.chance(1, if tier == Tier::Quick { 2_000 } else { 100_000 }) {
+            return gen_word_hunt_spec(rng);
+        }
         gen_history_spec(rng, "C05", true, 64)
     }
 
     fn execute(&self, spec: &Spec, st: &mut Stats) -> RunEnd {
         if spec.variant == "giant_fill" {
             return run_giant_fill(spec, st);
+        }
+        if spec.variant == "word_hunt" {
+            return run_word_hunt(spec, st);
         }
         let kind = spec.kind.expect("kind");
         let mut g = match build(spec, false) {
@@ -280,7 +286,7 @@ impl Scenario for C05 {
     }
 
     fn rule(&self) -> String {
-        "Each run: one generator type (20 types incl. JitterRng over a scripted clock), one seeding route, a native-width pre-advance of 0..=block_len+2 calls (every buffer index / half flag is a start state), then 1..64 operations from a per-run mix of next_u32/next_u64/fill_bytes(n) with n in {0, 1..9, block-9..block+9, 2*block+-9, 3*block+7, rare 8 KiB}, then a 2-block native drain. Every returned value/byte is compared with the projection table of the statement applied to the word stream of an identically seeded twin driven with native-width calls only. distinct_nontrivial = number of distinct (type, op kind, buffer index at call, half flag, n mod 8, straddles-refill, n>0) signatures reached by operations. One run in four makes every call the way generic code resolves it (trait-qualified) instead of the concrete-type method/path call; JitterRng runs may have the real clock flying (wall-clock seam). The whole check is repeated in a build with -C target-cpu=native.".into()
+        "Each run: one generator type (20 types incl. JitterRng over a scripted clock), one seeding route, a native-width pre-advance of 0..=block_len+2 calls (every buffer index / half flag is a start state), then 1..64 operations from a per-run mix of next_u32/next_u64/fill_bytes(n) with n in {0, 1..9, block-9..block+9, 2*block+-9, 3*block+7, rare 8 KiB}, then a 2-block native drain. Every returned value/byte is compared with the projection table of the statement applied to the word stream of an identically seeded twin driven with native-width calls only. distinct_nontrivial = number of distinct (type, op kind, buffer index at call, half flag, n mod 8, straddles-refill, n>0) signatures reached by operations. One run in four makes every call the way generic code resolves it (trait-qualified) instead of the concrete-type method/path call; JitterRng runs may have the real clock flying (wall-clock seam). (word_hunt, one run in 2000) HC-128 / ISAAC produce 2^28 words in bulk; where the stream holds a zero, all-ones or repeated word, fresh clones positioned on / one / two words before it make 13 short call sequences whose results the stream itself defines. The whole check is repeated in a build with -C target-cpu=native.".into()
     }
     fn assumptions(&self) -> Vec<String> {
         vec![
@@ -493,5 +499,138 @@ fn run_giant_fill(spec: &Spec, st: &mut Stats) -> RunEnd {
             Err(_) => return RunEnd::Discard("clock_abort".into()),
         }
     }
+    RunEnd::Ok
+}
+
+
+// ------------------------------------------------------------------------------------------
+// Word hunt: values that cannot be solved for. The key stream of HC-128 (non-linear, no serde, no
+// public state) takes a special value - a zero word, an all-ones word, a word equal to its
+// predecessor - once in 2^32 words, and nothing but producing the stream finds one. A hunt
+// produces 2^28 words in 1 MiB bulk fills, keeps a clone from the start of each chunk, and when a
+// chunk holds a special word it positions fresh clones on, one before and two before that word and
+// makes the short calls there (fills of 1..12 bytes, next_u32, next_u64, in several orders). The
+// chunk itself is the reference: each call must return the bytes of the next ceil(n/4) words.
+// (ISAAC too: its states can be manufactured, this is the unmanufactured route.)
+// ------------------------------------------------------------------------------------------
+
+fn gen_word_hunt_spec(rng: &mut Prng) -> Spec {
+    let mut spec = Spec { prop: "C05".into(), variant: "word_hunt".into(), ..Default::default() };
+    let kind = *rng.pick(&[Kind::Hc128, Kind::Hc128, Kind::Hc128, Kind::Isaac]);
+    spec.kind = Some(kind);
+    spec.seed = Some(gen_seed(rng, kind));
+    // aux[0]: chunks of 1 MiB (2^18 words each)
+    spec.aux = vec![1024];
+    spec
+}
+
+fn run_word_hunt(spec: &Spec, st: &mut Stats) -> RunEnd {
+    let kind = spec.kind.expect("kind");
+    st.evals += 1;
+    let mut g = match build(spec, false) {
+        Ok(g) => g,
+        Err(e) => return e,
+    };
+    const CHUNK: usize = 1 << 20;
+    let chunks = spec.aux.first().copied().unwrap_or(1);
+    let mut buf = vec![0u8; CHUNK];
+    let mut prev = 0x5EED_0001u32;
+    let battery: [(usize, &[Call]); 13] = [
+        (0, &[Call::Fill(4), Call::U32, Call::U64]),
+        (0, &[Call::Fill(5), Call::U32]),
+        (0, &[Call::Fill(7), Call::Fill(4)]),
+        (0, &[Call::U32, Call::U32]),
+        (0, &[Call::U64, Call::U32]),
+        (0, &[Call::Fill(1), Call::Fill(4)]),
+        (0, &[Call::Fill(6), Call::U64]),
+        (0, &[Call::Fill(8), Call::Fill(3)]),
+        (1, &[Call::Fill(8), Call::U32]),
+        (1, &[Call::U64, Call::U32]),
+        (1, &[Call::Fill(4), Call::Fill(4), Call::U32]),
+        (1, &[Call::U32, Call::Fill(3), Call::U32]),
+        (2, &[Call::Fill(12), Call::U32]),
+    ];
+    for c in 0..chunks {
+        let chk = g.boxed_clone();
+        {
+            let gm = g.as_mut();
+            let bm = &mut buf;
+            if let Err(SutFail::Panic(m)) = guard(|| gm.fill_bytes(bm)) {
+                return sut_panic("fill_bytes", &m);
+            }
+        }
+        let words: Vec<u32> = buf.chunks_exact(4).map(|b| u32::from_le_bytes([b[0], b[1], b[2], b[3]])).collect();
+        let mut specials: Vec<usize> = Vec::new();
+        for (i, w) in words.iter().enumerate() {
+            if *w == 0 || *w == u32::MAX || *w == prev {
+                specials.push(i);
+            }
+            prev = *w;
+        }
+        for p in specials {
+            if p < 2 || p + 16 > words.len() {
+                continue;
+            }
+            st.count("probe:special_word_found");
+            for (back, calls) in battery.iter() {
+                let start = p - back;
+                let mut t = chk.boxed_clone();
+                let mut skip = vec![0u8; 4 * start];
+                {
+                    let tm = t.as_mut();
+                    let sm = &mut skip;
+                    if let Err(SutFail::Panic(m)) = guard(|| tm.fill_bytes(sm)) {
+                        return sut_panic("fill_bytes", &m);
+                    }
+                }
+                let mut at = start;
+                for (k, call) in calls.iter().enumerate() {
+                    let out = match do_call(t.as_mut(), *call) {
+                        Ok(o) => o,
+                        Err(SutFail::Panic(m)) => return sut_panic("op", &m),
+                        Err(SutFail::ClockAbort) => return RunEnd::Discard("clock_stuck".into()),
+                    };
+                    let (expect, used) = match call {
+                        Call::U32 => (Out::U32(words[at]), 1),
+                        Call::U64 => (Out::U64(words[at] as u64 | (words[at + 1] as u64) << 32), 2),
+                        Call::Fill(n) => {
+                            let nw = (*n + 3) / 4;
+                            let mut b: Vec<u8> = words[at..at + nw].iter().flat_map(|w| w.to_le_bytes()).collect();
+                            b.truncate(*n);
+                            (Out::Bytes(b), nw)
+                        }
+                    };
+                    if out != expect {
+                        let what = match call {
+                            Call::U32 => "next_u32".to_string(),
+                            Call::U64 => "next_u64".to_string(),
+                            Call::Fill(n) => format!("fill_bytes({})", n),
+                        };
+                        return viol(
+                            "C05/value_mismatch",
+                            format!("{}:{}", kind.name(), what.split('(').next().unwrap()),
+                            format!(
+                                "{}: word {} of the stream is {:#010x} (chunk {} word {}); a clone positioned {} word(s) before it, call #{} {}: got {}, the stream says {}",
+                                kind.name(),
+                                c as usize * (CHUNK / 4) + p,
+                                words[p],
+                                c,
+                                p,
+                                back,
+                                k,
+                                what,
+                                short(&out),
+                                short(&expect)
+                            ),
+                        );
+                    }
+                    at += used;
+                }
+            }
+        }
+    }
+    st.add("probe:word_hunt_mebibytes", chunks);
+    st.log.u64(prev as u64);
+    st.sig(&[kind.id(), 4343]);
     RunEnd::Ok
 }
